@@ -45,7 +45,11 @@ type histDesc struct {
 	AppName    string `json:"appName"`
 	AppVersion string `json:"appVersion"`
 	AppDesc    string `json:"appDesc"`
-	Ops        []Op   `json:"ops"`
+	// the rest of the application header that is saved with the graph: JSON text of []schema.Author and of
+	// schema.WebScene ("" = not set)
+	Authors  string `json:"authors,omitempty"`
+	WebScene string `json:"webScene,omitempty"`
+	Ops      []Op   `json:"ops"`
 	// Cont: edits applied AFTER the save, to the live instance and to the reloaded one alike ("the same graph"
 	// includes how it carries on: ids handed out next, caches, parameter state)
 	Cont []Op `json:"cont,omitempty"`
@@ -449,6 +453,7 @@ func instanceOf(app *generator.App) *graph.Instance {
 // newApp: an application as cmd/polyform's edit mode holds it
 func newApp(d histDesc) (*generator.App, *graph.Instance) {
 	app := &generator.App{Name: d.AppName, Version: d.AppVersion, Description: d.AppDesc}
+	app.Authors, app.WebScene = headerOf(d)
 	app.Schema() // creates the App's instance
 	inst := instanceOf(app)
 	appOf[inst] = app
@@ -470,6 +475,24 @@ func saveInstance(inst *graph.Instance, d histDesc) []byte {
 	return saveGraphLevel(inst, d)
 }
 
+// headerOf: the authors and web scene of a history's application
+func headerOf(d histDesc) ([]schema.Author, *schema.WebScene) {
+	var authors []schema.Author
+	var scene *schema.WebScene
+	if d.Authors != "" {
+		if err := json.Unmarshal([]byte(d.Authors), &authors); err != nil {
+			panic(fmt.Errorf("harness: authors %q: %w", d.Authors, err))
+		}
+	}
+	if d.WebScene != "" {
+		scene = &schema.WebScene{}
+		if err := json.Unmarshal([]byte(d.WebScene), scene); err != nil {
+			panic(fmt.Errorf("harness: web scene %q: %w", d.WebScene, err))
+		}
+	}
+	return authors, scene
+}
+
 func saveGraphLevel(inst *graph.Instance, d histDesc) []byte {
 	g := schema.App{
 		Name:        d.AppName,
@@ -477,6 +500,7 @@ func saveGraphLevel(inst *graph.Instance, d histDesc) []byte {
 		Description: d.AppDesc,
 		Producers:   make(map[string]schema.Producer),
 	}
+	g.Authors, g.WebScene = headerOf(d)
 	encoder := &jbtf.Encoder{}
 	inst.EncodeToAppSchema(&g, encoder)
 	data, err := encoder.ToPgtf(g)
